@@ -22,10 +22,113 @@ def _null_reset(x, path=None):
 
 
 def _copy_out(e):
-    """a copy of the handle member into a new handle object (auto h = _h;): returns the path copied from"""
+    """a copy of the handle member into a new handle object (auto h = _h;  or, converted to the untyped handle, std::coroutine_handle<> h = _h;):
+    returns the path copied from.  The conversion that only feeds a comparison (_h != nullptr) copies nothing out"""
     if e.k == 'construct' and norm(e.get('callee') or '') == 'std::coroutine_handle::coroutine_handle' and len(e.get('args') or []) == 1 and norm(e['args'][0].get('field') or '') == H:
         return e['args'][0].get('path')
+    if e.k == 'call' and norm(e.get('callee') or '') == 'std::coroutine_handle::operator coroutine_handle' and norm(e.get('field') or '') == H and e.get('recv') and \
+            not re.search(r'operator(==|!=|<=>)', e.get('use') or ''):
+        return e['recv']
     return None
+
+
+# ---------------------------------------------------------------------------------------------------------------------------------
+# constants handed to a helper decide its branches: release(false, nullptr) never takes the `if (attach)` arm of release(bool attach, T *target)
+
+def _truth(p):
+    """truth value of a condition that consists of literals only (true, !(false), (nullptr == nullptr), 0 ...), else None"""
+    p = p or ''; neg = False
+    while p.startswith('!(') and p.endswith(')') and p.count('(') == p.count(')'):
+        p = p[2:-1]; neg = not neg
+    v = None
+    if p in ('true', 'false'):
+        v = (p == 'true')
+    elif p in ('nullptr', 'ctor(nullptr)'):
+        v = False
+    elif re.fullmatch(r'\d+', p):
+        v = int(p) != 0
+    else:
+        sc = split_cmp(p)
+        if sc and sc[1] in ('==', '!='):
+            a, b = _truth(sc[0]), _truth(sc[2])
+            lits = ('true', 'false', 'nullptr', 'ctor(nullptr)')
+            if a is not None and b is not None and all(x in lits or re.fullmatch(r'\d+', x) for x in (sc[0], sc[2])):
+                num = lambda x: int(x) if re.fullmatch(r'\d+', x) else int(x == 'true')
+                v = (num(sc[0]) == num(sc[2])) == (sc[1] == '==')
+    return None if v is None else (v != neg)
+
+
+def feasible(tr):
+    """False when a branch of the trace went against a condition that is a literal on this path - a parameter of an expanded helper replaced by
+    the constant the caller passed: such a path does not exist"""
+    for it in tr:
+        if it.k != 'branch':
+            continue
+        for p, v in list((it.get('forms') or {}).items()) + [(it.get('path'), it.val)]:
+            t = _truth(p)
+            if t is not None and t != bool(v):
+                return False
+    return True
+
+
+def _const_args(callee, ev):
+    """{param:<name>: literal} for the parameters of `callee` that call event `ev` binds to a literal constant (and that the callee never reassigns)"""
+    env = {}
+    written = {e.get('path') for e in callee.events() if e.k == 'write'}
+    args = ev.get('args') or []
+    for i, p in enumerate(callee.get('params') or []):
+        if i < len(args) and not p.get('pack'):
+            a = args[i]
+            ap = a.get('path') or ''
+            if (ap in ('true', 'false', 'nullptr') or re.fullmatch(r'\d+', ap)) and 'param:' + p['name'] not in written and '&' not in (p.get('type') or ''):
+                env['param:' + p['name']] = ap
+    return env
+
+
+def interval_count_ctx(db, f, pred, cache=None, stack=(), env=None):
+    """rules.interval_count, with the literal arguments of every call carried into the callee: [min, max] of the events satisfying pred over the live
+    paths of f that are feasible under the constants f was called with"""
+    from ..core import STD_IMMEDIATE
+    cache = {} if cache is None else cache
+    env = env or {}
+    k = (f['key'], f['inst'], tuple(sorted(env.items())))
+    if k in cache:
+        return cache[k]
+    if any(s[:2] == k[:2] for s in stack):
+        return (0, 0)
+    T = Tracer(db, depth=0, limit=20000)
+    lo = None; hi = 0
+    trs = T.traces(f, 0, env)
+    if T.truncated:
+        raise Broken('path bound exceeded in %s' % f['nname'])
+    for tr in trs:
+        if not live(tr) or not feasible(tr):
+            continue
+        a = b = 0
+        for it in tr:
+            if it.k in ('branch', 'switch', 'abort', 'exception'):
+                continue
+            if pred(it):
+                a += 1; b += 1
+                continue
+            if it.k in ('call', 'construct'):
+                c = None; cenv = {}
+                if it.get('callee_key'):
+                    c = db.resolve(f, it['callee_key'], it.get('callee_inst'))
+                    if c is not None and not c.get('lambda'):
+                        cenv = _const_args(c, it)
+                elif STD_IMMEDIATE.get(norm(it.get('callee'))) is not None:
+                    for ar in it.get('args', []):
+                        if (ar.get('opath') or ar.get('path') or '').startswith('lambda@'):
+                            c = db.get((ar.get('opath') or ar['path'])[7:])
+                if c is not None:
+                    x, y = interval_count_ctx(db, c, pred, cache, stack + (k,), cenv)
+                    a += x; b += y
+        lo = a if lo is None else min(lo, a)
+        hi = max(hi, b)
+    r = (lo or 0, hi)
+    cache[k] = r
+    return r
 
 
 def unrolled_take(db, f, e):
@@ -228,10 +331,10 @@ def entries(ctx, db, rid_='C04.start-once'):
             continue
         seen = set()
         for f in fns:
-            a, b = interval_count(db, f, is_take, cache)
+            a, b = interval_count_ctx(db, f, is_take, cache)
             # closures created here and run later (thread pool) count as part of the entry
             for lf in _closures(db, f):
-                x, y = interval_count(db, lf, is_take, cache)
+                x, y = interval_count_ctx(db, lf, is_take, cache)
                 a += x; b += y
             k = (f['key'],)
             ok = (a >= lo and b <= hi)
@@ -309,20 +412,103 @@ def dtor(ctx, db, rid_='C04.dtor-destroys-unstarted'):
         ctx.ob(rid, f, f['key'], bad is None, 'destroy iff held' + ('' if not bad else ' -- ' + bad[0]), desc=bad[0] if bad else None)
 
 
+def _call_sites(db, f):
+    """[(caller instance, call event)] of the resolved calls of function f (all instantiations of the pattern)"""
+    idx = db.__dict__.setdefault('_c04_sites', None)
+    if idx is None:
+        idx = {}
+        for g in db.all_instances():
+            for e in g.events():
+                if e.k in ('call', 'construct') and e.get('callee_key'):
+                    idx.setdefault(e['callee_key'], []).append((g, e))
+        db.__dict__['_c04_sites'] = idx
+    return idx.get(f['key'], [])
+
+
+def _executes(db, f, e, env):
+    """can function f, entered with the literal arguments `env`, reach its event e on a feasible path?"""
+    T = Tracer(db, depth=0, limit=20000)
+    trs = T.traces(f, 0, env)
+    if T.truncated:
+        return True
+    return any(feasible(tr) and any(it.get('id') == e.get('id') and it.k == e.k and it.get('depth', 0) == 0 for it in tr) for tr in trs)
+
+
+def does_only_for(db, f, e, allowed, depth=3, _seen=None):
+    """may function f perform the operation e that is reserved to the functions named in `allowed`?  rules.who_ok, refined by the constants a caller
+    passes: f is one of them / a closure of one / a helper reached only from them - or every call of f comes from such a function or hands f literal
+    arguments under which e is not executed (a mode flag: release(false, nullptr) skips the `if (attach)` arm that does the write)"""
+    if who_ok(db, f, allowed):
+        return True
+    _seen = set() if _seen is None else _seen
+    if f['key'] in _seen or depth < 0 or f.get('lambda'):
+        return False
+    _seen.add(f['key'])
+    sites = _call_sites(db, f)
+    if not sites:
+        return False
+    memo = {}
+    for g, c in sites:
+        env = _const_args(f, c)
+        k_ = tuple(sorted(env.items()))
+        if env and k_ not in memo:
+            memo[k_] = _executes(db, f, e, env)
+        if env and not memo[k_]:
+            continue          # this caller switches the operation off
+        if who_ok(db, g, allowed):
+            continue
+        # the caller is itself a helper: it is judged as a whole (it reaches e through this call)
+        if not does_only_for(db, g, c, allowed, depth - 1, _seen):
+            return False
+    return True
+
+
 def bound_writers(ctx, db, rid_='C04.bound-party'):
     rid = ctx.rule(rid_, 'WHO', 'the pointer that decides where the result goes (async_promise::_future) is written only by start_promise (from claim()) and by the co_await '
                    'awaiter; the result is stored only through it (async_promise::resolve / unhandled_exception)', floor=2)
     found = who(db, lambda f, e: e.k == 'write' and field_of(e) == shared.FUT and not e.get('init'))
-    check_who(ctx, rid, found, {'cocls::async::start_promise', 'cocls::async::co_awaiter::await_suspend'}, 'write of async_promise::_future', db=db)
+    allowed = {'cocls::async::start_promise', 'cocls::async::co_awaiter::await_suspend'}
+    for fname, lst in sorted(found.items()):
+        f, e = lst[0]
+        ok = all(does_only_for(db, f_, e_, allowed) for f_, e_ in {(id(x[0]), x[1].get('id')): x for x in lst}.values())
+        ctx.ob(rid, f, e.get('loc') or f['key'], ok, '%s only from the allowed set (here: %s)' % ('write of async_promise::_future', fname),
+               detail={'allowed': sorted(allowed)} if not ok else None, desc='%s from %s' % ('write of async_promise::_future', fname))
+    T = htracer(db)
     for name in ('cocls::async_promise::resolve', 'cocls::async_promise::unhandled_exception'):
         for f in db.need(name)[:1]:
-            ss = [e for e in f.events() if e.k == 'call' and norm(e.get('callee')) in shared.SET]
-            ok = len(ss) == 1 and norm(ss[0].get('lfield') or ss[0].get('field') or '') == shared.FUT
-            if len(ss) == 1 and not ok:
-                # through a local copy of the pointer: future<T> *f = _future; if (f) f->set(...)
-                o = value_origin(f, f.ev(ss[0]['recv_ev'])) if ss[0].get('recv_ev') is not None and f.ev(ss[0]['recv_ev']) is not None else value_origin(f, ss[0].get('recv'))
-                ok = o is not None and o.k == 'read' and norm(o.get('lfield') or o.get('field') or '') == shared.FUT
+            # (helpers of the class and closures handed to them are expanded: with_future([&](future<T> &f) { f.set(...); }))
+            trs = [t for t in T.traces(f) if live(t) and feasible(t)]
+            if T.truncated:
+                raise Broken('path bound exceeded in %s' % name)
+            nstore = 0; ok = bool(trs)
+            for tr in trs:
+                ss = all_indices(tr, lambda ev: ev.k == 'call' and norm(ev.get('callee')) in shared.SET)
+                if len(ss) > 1:
+                    ok = False
+                for i in ss:
+                    nstore += 1
+                    ok = ok and _is_bound_future(f, tr, i)
+            ok = ok and nstore > 0
             ctx.ob(rid, f, f['key'], ok, '%s stores into the bound future only' % name.split('::')[-1], desc='%s does not store into _future exactly once' % name)
+
+
+def _is_bound_future(f, tr, i):
+    """is the object of call tr[i] the future the coroutine is bound to (async_promise::_future), directly, through a local copy of the pointer
+    (future<T> *f = _future; if (f) f->set(...)) or through a reference parameter of an expanded helper / closure bound to *_future?"""
+    c = tr[i]
+    if norm(c.get('lfield') or c.get('field') or '') == shared.FUT:
+        return True
+    recv = c.get('recv') or ''
+    m = re.fullmatch(r'\*\((.*)\)', recv)
+    p_, _ = origin_in_trace(tr, i, m.group(1) if m else recv)
+    m = re.fullmatch(r'\*\((.*)\)', p_ or '')
+    p_ = m.group(1) if m else (p_ or '')
+    if re.search(r'(?:->|\.)_future$', p_) and (p_ == 'this->_future' or any(it.k == 'read' and it.get('path') == p_ and field_of(it) == shared.FUT for it in tr[:i])):
+        return True
+    if c.get('depth', 0) == 0:
+        o = value_origin(f, f.ev(c['recv_ev'])) if c.get('recv_ev') is not None and f.ev(c['recv_ev']) is not None else value_origin(f, c.get('orecv') or c.get('recv'))
+        return o is not None and o.k == 'read' and norm(o.get('lfield') or o.get('field') or '') == shared.FUT
+    return False
 
 
 def refused_start_empty(ctx, db, rid_='C04.refused-start-empty'):
@@ -381,14 +567,16 @@ def bound_party_optional(ctx, db, rid_='C04.detached-delivers-to-nobody'):
     rid = ctx.rule(rid_, 'GUARDED', 'async_promise (resolve, unhandled_exception, the final awaiter): the bound-future pointer _future - or a local copy of it - is '
                    'dereferenced only on the edge where it tested non-null: the body of a detached coroutine may return or throw without a party to deliver to', floor=3)
     T = htracer(db)
-    seen = set(); nsite = 0
+    seen = set(); nsite = 0; reported = set()
     for f in db.all_instances():
         if not f['nname'].startswith('cocls::async_promise::') or f['key'] in seen or f.get('kind') in ('ctor', 'dtor'):
             continue
-        if not any('_future' in ((e.get('recv') or '') + (e.get('path') or '') + (e.get('init') or '')) for e in f.events()):
-            continue
         seen.add(f['key'])
         trs = T.traces(f)
+        # (the pointer may be touched only inside a helper of the class or a closure handed to one - with_future([&](future<T> &f) {...}) - which the
+        # traces expand; a site reached that way is reported once, where it is written)
+        if not any('_future' in ((e.get('recv') or '') + (e.get('path') or '') + (e.get('init') or '')) for tr in trs for e in tr if e.k not in ('enter', 'leave')):
+            continue
         ctx.paths(rid, len(trs))
         bad = {}; sites = set()
         for tr in trs:
@@ -408,6 +596,9 @@ def bound_party_optional(ctx, db, rid_='C04.detached-delivers-to-nobody'):
                         if p_ not in known:
                             bad.setdefault(it.get('loc'), (p_, tr))
         for loc in sorted(sites):
+            if loc in reported and bad.get(loc) is None:
+                continue
+            reported.add(loc)
             nsite += 1
             b = bad.get(loc)
             ctx.ob(rid, f, loc, b is None, 'the bound future is used only where it tested non-null' + ('' if not b else ' -- %s is dereferenced on a path that did not test it: a detached coroutine (no bound party) crashes here' % b[0]),
